@@ -82,7 +82,7 @@ class World:
 
     def __init__(self, specs=(), output='record', fault_plan=None,
                  pack_messages=False, extra_settings=None, discover=True,
-                 extra_fns=None):
+                 extra_fns=None, clock='record'):
         self.trace = []
         self.lan = simlan.install(
             simlan.SimLan(specs, fault_plan, pack_messages))
@@ -100,7 +100,11 @@ class World:
         overrides.update(extra_settings or {})
         settings.using(config_values.functional).add_overrides(
             overrides).configure()
-        injection.bind_instance(self.clock).to(i_lib.Clock)
+        if clock == 'real':
+            import bardolph.lib.clock as clock_module
+            clock_module.configure()      # the production Clock, per Machine
+        else:
+            injection.bind_instance(self.clock).to(i_lib.Clock)
         if output == 'record':
             injection.bind_instance(
                 RecordingOutput(self.trace)).to(i_lib.Output)
